@@ -215,12 +215,14 @@ Qed.
 Lemma tscript_of_char : forall s m,
   tscript_of s m =
   let '(k, code) := pscript_at s (Z.of_nat m) in
-  if k =? 0 then SStatus code else if k =? 2 then SBlock else if k =? 3 then SPanic else SErr.
+  if k =? 0 then SStatus code else if k =? 2 then SBlock else if k =? 3 then SPanic
+  else if (k =? 4) || (k =? 6) then SBodyErr else if k =? 5 then SBodyBlock else SErr.
 Proof.
   intros s m. rewrite pscript_at_nat. unfold tscript_of.
   destruct (nth_error s m) as [[k code]|]; [|reflexivity].
   destruct k as [|q|q]; try reflexivity.
-  destruct q as [q|q|]; try reflexivity; destruct q; reflexivity.
+  destruct q as [q|q|]; try reflexivity; destruct q as [q|q|]; try reflexivity;
+    destruct q; reflexivity.
 Qed.
 
 Lemma ctx_done_cancel_of : forall c i,
@@ -250,6 +252,28 @@ Proof.
   destruct (k =? 3); [discriminate|reflexivity].
 Qed.
 
+(** what the client gets in the model satisfies the checker's clause *)
+Lemma visible_clause_model : forall pl rq n,
+  let o := attempt_outcome pl rq (n - 1)%nat in
+  let r := fst (presult_code (to_presult (Some o))) in
+  let v := visible_code (match o with
+                         | ONil c | OErr c _ => if publishes (rq_script rq (n - 1)%nat)
+                                                then VBackend (n - 1) else VGateway c
+                         | _ => VNothing end) in
+  (if (r =? 0) || (r =? 4) then (fst v =? Z.of_nat (n - 1)) && (snd v =? 2)
+   else if r <? 7 then (fst v =? -1) && (snd v =? 0) else true) = true.
+Proof.
+  intros pl rq n. cbv zeta. unfold attempt_outcome.
+  destruct (rq_script rq (n - 1)%nat) as [c| | | | |]; cbn [publishes];
+    repeat match goal with |- context [if ?b then _ else _] =>
+      match b with
+      | zmem _ _ => destruct b
+      | ctx_done _ _ => destruct b
+      | pl_timeout _ => destruct b
+      | (ctx_done _ _ || pl_timeout _)%bool => destruct b
+      end end; cbn [fst snd visible_code presult_code to_presult res_code orb]; rewrite ?Z.eqb_refl; reflexivity.
+Qed.
+
 (** the checker's expectation for the last attempt is the model's classification *)
 Lemma expect_last_model : forall c stream script cancel draws pick q m,
   q_script q = script -> q_cancel q = cancel ->
@@ -265,8 +289,16 @@ Proof.
   destruct (k =? 0) eqn:E0; [destruct (zmem cd (k_fcodes c)); reflexivity|].
   destruct (k =? 3) eqn:E3.
   - destruct (k =? 2) eqn:E2; [lia|reflexivity].
-  - destruct ((0 <=? cancel) && (cancel <=? Z.of_nat m)); destruct (k =? 2);
-      try reflexivity. destruct (0 <? k_timeout c); reflexivity.
+  - destruct (k =? 2) eqn:E2.
+    + assert (E46 : (k =? 4) || (k =? 6) = false) by lia. assert (E5 : (k =? 5) = false) by lia.
+      rewrite E46, E5.
+      destruct ((0 <=? cancel) && (cancel <=? Z.of_nat m)); try reflexivity.
+      destruct (0 <? k_timeout c); reflexivity.
+    + destruct ((k =? 4) || (k =? 6)); [reflexivity|].
+      destruct (k =? 5).
+      * destruct ((0 <=? cancel) && (cancel <=? Z.of_nat m)); cbn [orb]; try reflexivity.
+        destruct (0 <? k_timeout c); reflexivity.
+      * destruct ((0 <=? cancel) && (cancel <=? Z.of_nat m)); reflexivity.
 Qed.
 
 Lemma res_not_hang : forall r, r <> PHang -> (fst (presult_code r) =? 8) = false.
@@ -285,7 +317,8 @@ Proof.
   set (tr := handler_trace pl rq) in *. set (n := n_attempts tr) in *.
   set (h := attempt_outcome pl rq).
   unfold prop_req.
-  cbn [q_calls q_stream q_cancel q_res q_status q_gaps q_script].
+  cbn [q_calls q_stream q_cancel q_res q_status q_gaps q_script q_from q_plen q_bodies].
+  rewrite pool_visible_permitted. fold tr. unfold visible_of. fold n.
   (* facts about the handler trace, by cases retried / not retried *)
   assert (F : (1 <= n)%nat /\
               Z.of_nat n <= (if k_retry c && negb stream then p_max (k_pol c) else 1) /\
@@ -323,9 +356,22 @@ Proof.
     - specialize (F6 ltac:(lia) eq_refl ltac:(lia)). lia.
     - specialize (F7 eq_refl). lia. }
   rewrite F4. fold h.
-  set (q0 := {| q_stream := stream; q_script := script; q_cancel := cancel; q_calls := Z.of_nat n;
+  pose proof (visible_clause_model pl rq n) as C9. cbv zeta in C9. fold h in C9.
+  cbn [rq rq_script model_pool_rq] in C9.
+  set (vis := visible_code match h (n - 1)%nat with
+                           | ONil c0 | OErr c0 _ =>
+                               if publishes (tscript_of script (n - 1)) then VBackend (n - 1) else VGateway c0
+                           | _ => VNothing end) in *.
+  cbn [rq rq_script model_pool_rq].
+  change (visible_code match h (n - 1)%nat with
+                           | ONil c0 | OErr c0 _ =>
+                               if publishes (tscript_of script (n - 1)) then VBackend (n - 1) else VGateway c0
+                           | _ => VNothing end) with vis.
+  set (q0 := {| q_stream := stream; q_script := script; q_cancel := cancel; q_clen := 0;
+                q_calls := Z.of_nat n;
                 q_res := fst (presult_code (to_presult (Some (h (n - 1)%nat))));
                 q_status := snd (presult_code (to_presult (Some (h (n - 1)%nat))));
+                q_from := fst vis; q_plen := snd vis; q_bodies := Z.of_nat n;
                 q_gaps := firstn (n - 1) (waits_of tr) |}).
   assert (C5 : Zeqb_pair (expect_last c q0 (Z.of_nat (n - 1)))
                  (fst (presult_code (to_presult (Some (h (n - 1)%nat)))),
@@ -342,7 +388,7 @@ Proof.
       destruct (k_retry c); [reflexivity|discriminate].
     - rewrite (F7 eq_refl). reflexivity. }
   specialize (C3 q0 eq_refl).
-  fold q0. rewrite C1, C2, C3, C4, C5, C6, C7, C8. reflexivity.
+  fold q0. rewrite C1, C2, C3, C4, C5, C6, C7, C8, C9, Z.eqb_refl. reflexivity.
 Qed.
 
 Lemma res_zero_iff_not_failed : forall r,
